@@ -119,6 +119,17 @@ def check(tier="quick", seed=0, repo="/repo"):
             else:
                 res["open"][name] = dict(kind="ground", status="refuted", text=f"javascript type_map[{n!r}] = {got!r}; parser format {fmt!r}", reason="ground mismatch", candidates=[])
     check_emitters(res, repo)
+    # the version hash printed by every back end is the same 32-bit prefix of the parser's digest (shared with C13)
+    from . import hashcheck
+
+    def _ok(n, goal):
+        res["obligations"] += 1; res["discharged"] += 1; res["discharged_names"].append(n)
+        res["by_backend"]["attribute-flow"] = res["by_backend"].get("attribute-flow", 0) + 1
+
+    def _bad(n, text):
+        res["obligations"] += 1
+        res["open"][n] = dict(kind="ensures", status="refuted", text=text, reason="emit site", candidates=[])
+    hashcheck.emit_obligations(res, repo, _ok, _bad, "C04")
     res["seconds"] = round(time.time() - t0, 3)
     return res
 
